@@ -96,6 +96,12 @@ CHECKS = {
  "C17": ("exploration", "model-based run-time monitor over hostile-name histories (registry model with incarnation-tagged tuples) + scheduler-driven interleavings of insert vs drop/re-create",
          "held on every history and schedule of the run apart from the listed known finding (shard file-name collision between `a`/`b_c` and `a_b`/`c`): every KG's facts/rules/schemas equal the model after each operation and restart; nothing of a dropped incarnation is visible in a re-created KG",
          "trusted: the registry model; schedules are seeded random walks over the insert/drop/create hook points", "3/C17"),
+ "C13": ("fault_enumeration", "crash-point enumeration: strace-recorded file-system mutation log replayed prefix by prefix into crash images, each recovered by the real StorageEngine::new in a fresh process and compared with a prefix model",
+         "held on every crash image of the run (an image after every file-system mutation of every generated history; quick samples at most 120 per history): recovery succeeds and the recovered facts/KG list equal the model after k operations, acknowledged <= k <= begun",
+         "crash model A (completed syscalls durable); strace fidelity; single-threaded histories; the torn-write lane runs in the thorough tier only", "3/C13"),
+ "C16": ("fault_enumeration", "crash-point enumeration over catalog histories (same machinery as C13) with a catalog model (rule names + clause counts, schema names)",
+         "held on every crash image of the run: the store opens and the recovered rule/schema catalogs are the pre- or post-operation catalogs; without a crash a restart shows exactly the acknowledged catalogs",
+         "crash model A; rules compared by name and clause count", "3/C16"),
 }
 NOT_YET = "monitor not built yet in this round (design in DESIGN.md section 3); not claimed until a check exists"
 
